@@ -28,6 +28,8 @@ fixed("F2", "C01", "3082f70", "C01.ops|op|Or", "same defect, Or")
 fixed("F24", "C16", "3cef71c", "C16.record-layout|slot|eval_expr_as_address|-", "nested field assignment `r.z.b = v` on a record whose annotation lists fields in non-alphabetical order wrote the wrong slot (203 instead of 1023; findings/repro/F24_*.mmm): an agreeing type annotation changed the output")
 fixed("F25", "C16", "03b817f", "C16.record-layout|slot|add_bind_pattern|-", "record pattern `let {z = p, y = q} = r` on a record annotated `{z: float, y: float}` bound the fields crosswise (31 instead of 13; findings/repro/F25_*.mmm)")
 fixed("F28", "C05", "7077c06", "C05.states-flow|dropped|eval_expr|Apply|eval_expr", "`({ big(1.0); delay })(4.0, 1.0, 2.0)`: the state cells of a delay call's callee expression were dropped from the published layout (try_make_delay early return); the VM wrote 60000 words past the state storage and crashed with SIGSEGV (findings/repro/F28_*.mmm)")
+for _p in ("C05", "C01"):
+    fixed("F29", _p, "acf6026", "C05.site-table|cursor-never-advances|delay_sizes", "every `delay` of a function ran on the VM with the ring length of the function's first delay (the position in FuncProto::delay_sizes was never advanced): `delay(4,c,2) + delay(100,c,50)` differed from WASM, and `delay(50000,..)` followed by `delay(4,..)` read and wrote outside the 6-word cell (findings/repro/F29*.mmm)")
 fixed("F21", "C01", "52a554f", "C01.ops|truthiness|JmpIfNeg|F64Const+F64Gt", "`if` on a NaN condition took the then-branch on the VM (cond <= 0.0 test) and the else-branch on WASM (cond > 0.0)")
 
 # ---- C01 operator templates ---------------------------------------------------------------------------
